@@ -17,6 +17,7 @@ func extractMore(f *Facts) {
 	extractDisabledSites(f)
 	extractQueryStub(f)
 	extractStubInterface(f)
+	extractProcess(f)
 }
 
 // extractStubInterface parses shim.ChaincodeStubInterface from the module cache copy named in go.mod.
